@@ -8,6 +8,7 @@ package harness
 // must answer it once and its handler must return.
 
 import (
+	"encoding/json"
 	"fmt"
 	"sort"
 	"testing"
@@ -102,6 +103,7 @@ func runAU(c auCase) (fail string, stats map[string]bool) {
 	g.mu.Unlock()
 	var held *Exchange
 	var msgs []Pkt
+	errsBefore := len(w.ConnErrs)
 	if c.Req == "poll" {
 		held = pc.StartPoll()
 	} else {
@@ -179,6 +181,18 @@ func runAU(c auCase) (fail string, stats map[string]bool) {
 		stats[fmt.Sprintf("held-request-answered-%d", snap.Status)] = true
 		if got := sr.Msgs[nBefore:]; len(got) != 0 && snap.Status != 200 {
 			return fmt.Sprintf("%s: refused (%d) but %s was delivered", what, snap.Status, pktsString(got)), stats
+		}
+	}
+	if snap.Responded && snap.Status == 400 && len(snap.Body) > 0 {
+		// refused by the server with one of the documented error objects (C05): then exactly one connection_error
+		// event carries the same code
+		var je jsonErr
+		if err := json.Unmarshal(snap.Body, &je); err == nil && je.Code != nil {
+			stats[fmt.Sprintf("held-request-refused-with-code-%d", *je.Code)] = true
+			newErrs := w.ConnErrs[errsBefore:]
+			if len(newErrs) != 1 || newErrs[0] == nil || newErrs[0].CodeMessage == nil || newErrs[0].Code != *je.Code {
+				return fmt.Sprintf("%s: answered 400 %s, and %d connection_error events were emitted for it (want exactly one with code %d)", what, snap.Body, len(newErrs), *je.Code), stats
+			}
 		}
 	}
 	// the session goes on (unless it was closed), on its new transport after an upgrade
